@@ -109,9 +109,10 @@ class Gen:
             st["chk"] += 1
             st["adds"] += 1
             data = st["data"]
+            chk = st["chk"]
             if depth < 2 and r.random() < 0.3:
                 beh_line(data, depth + 1)
-            return "A %d %s %d %d" % (r.randrange(3), num(self.duration(clk)), data, st["chk"])
+            return "A %d %s %d %d" % (r.randrange(3), num(self.duration(clk)), data, chk)
 
         def ref():
             x = r.random()
@@ -240,6 +241,12 @@ def monitor(lines):
                     jobs_since_poll += 1
             elif c[0] == "D":
                 h = int(c[1])
+                if h != 0 and (h >> 32) == 0 and res == 0:
+                    # a forged handle (check word 0: never issued by timer_add, whose check words are non-zero) was
+                    # accepted - it can only have hit the slot of the timer whose callback is running (its check word is
+                    # zeroed during dispatch).  The caller broke the API contract; what the loop does afterwards is not
+                    # covered by the property (the model still has to agree with the implementation).
+                    return None
                 t = timers.get(by_handle.get(h))
                 if t and t["state"] == "pending":
                     if res != 0:
